@@ -3,6 +3,7 @@ CONSTANT WriterSets <- WSets
 CONSTANT InitLens = {0}
 CONSTANT InitTombs = {FALSE}
 CONSTANT Modes = {FALSE}
+CONSTANT AheadSets <- WSetsNoAhead
 CONSTANT Kinds = {"put", "push", "del"}
 SPECIFICATION PSpec
 CONSTRAINT PProgress
